@@ -713,6 +713,58 @@ impl Default for Heap {
   }
 }
 
+#[cfg(samlang_verif)]
+/// Verification-only read access to the private heap state (guard: --cfg samlang_verif).
+pub mod verif_hooks {
+  use super::{Heap, ModuleReference, PStr, StringStoredInHeap};
+
+  pub struct HeapDump {
+    /// (kind, string, marked); kind: 'P' permanent, 'T' temporary, 'D' deallocated
+    pub slots: Vec<(char, String, bool)>,
+    pub sweep_index: usize,
+    pub unmarked: Vec<usize>,
+    pub modules: Vec<Vec<PStr>>,
+    pub interned_temp: Vec<(String, u32)>,
+    pub interned_static: Vec<(String, u32)>,
+  }
+
+  pub fn heap_id(p: PStr) -> Option<u32> {
+    p.0.as_heap_id()
+  }
+
+  pub fn module_id(m: ModuleReference) -> usize {
+    m.0
+  }
+
+  pub fn dump(heap: &Heap) -> HeapDump {
+    let slots = heap
+      .str_pointer_table
+      .iter()
+      .map(|s| match s {
+        StringStoredInHeap::Permanent(s) => ('P', s.to_string(), false),
+        StringStoredInHeap::Temporary(s, m) => ('T', s.clone(), *m),
+        StringStoredInHeap::Deallocated(s) => ('D', s.clone().unwrap_or_default(), false),
+      })
+      .collect();
+    let mut unmarked: Vec<usize> = heap.unmarked_module_references.iter().map(|m| m.0).collect();
+    unmarked.sort();
+    let mut interned_temp: Vec<(String, u32)> =
+      heap.interned_string.iter().map(|(k, v)| (k.to_string(), *v)).collect();
+    interned_temp.sort();
+    let mut interned_static: Vec<(String, u32)> =
+      heap.interned_static_str.iter().map(|(k, v)| (k.to_string(), *v)).collect();
+    interned_static.sort();
+    HeapDump {
+      slots,
+      sweep_index: heap.sweep_index,
+      unmarked,
+      modules: heap.module_reference_pointer_table.iter().map(|p| p.to_vec()).collect(),
+      interned_temp,
+      interned_static,
+    }
+  }
+}
+
 #[cfg(test)]
 mod tests {
   use super::{
